@@ -4,29 +4,26 @@ import MindsVerif.Gen.Schema
 /-!
 # C12 — prepared statements bind placeholders in textual order
 
-`get_query_params` / `fill_query_params` are the walker (`Model/Walk.lean`, schema probed from the code)
-with the visitors `cbFind` / `cbFill`; `prepare` / `execute` / `info` transcribe
-`PreparedStatementPlanner` (`Model/Params.lean`).
+`get_query_params` / `fill_query_params` (`planner/utils.py`, as of c3aa76c): the walker (`Model/Walk.lean`, schema
+probed from the code) finds the placeholders, `sort_by_text_position` orders them by their position in the rendered
+statement (`Params.sortByText` over `Walk.textOrder`, the print-template order of all nodes), the values are assigned
+to that list and a second walk replaces every placeholder by the value looked up by identity (`cbFillMap`).
+`prepare` / `execute` / `info` transcribe `PreparedStatementPlanner` (`Model/Params.lean`).
 
-* `C12_count` (T12.1): `prepare` reports the number of `Parameter` visits of the walk, for all trees.
-* `C12_fill` (T12.2), for all schemas, all trees, all value lists of the reported length: no `IndexError`,
-  every value is consumed, the *i*-th visited parameter is answered with the *i*-th value (none left,
-  none twice), these are the very parameters `prepare` reported, in the same order, and no other node
-  is replaced.  (That an answer takes exactly the place of the visited node is `C13_lifting` (b).)
-* `C12_textual` (T12.3): on a tree that avoids the excepted configurations (`okTree`) the visiting
-  order — hence the binding order — is the textual order.  Needs Φ12 (`phi12`: the branch of
-  `Parameter` traverses nothing), kernel-evaluated on the probed schema.
-* `C12_execute`, `C12_mismatch` (T12.4): after `prepare q`, `execute vs` plans the filled tree iff the
-  count matches, else `PlanningException`.
-* witnesses: `C12_witness_update` (first value bound to the WHERE placeholder), `C12_case_operand`, `C12_from_arg`
-  (regressions, a58885a / 674e01f: placeholders in a CASE operand and in a FROM-argument are found).
-* regression theorems for defects fixed in the library (80e5910, b11daf5): `C12_second_execute` (a second
-  `execute` with values raises PlanningException, for every statement), `C12_info_after_execute`
-  (`get_statement_info` reports no parameters after execution), `C12_keeps_alias` (the constant written
-  for a placeholder keeps the placeholder's alias child).
-Full statement `C12_full` is not a theorem on the pinned tree: it needs `∀ t, okTree σ t`, which the
-deviations listed in `C13.knownDevs` refute.  Planning of the filled tree (`plan_query`) is outside
-this model; the check compares plans on the real code.
+* `C12_count` (T12.1): `prepare` reports as many placeholders as the walk visits; `C12_found_perm`: they are those.
+* `C12_textual` (T12.3, **no `okTree` hypothesis**): when the found placeholders are rendered (decidable), the reported
+  list is ordered by rendered position — whatever order the walker visits them in.
+* `C12_fill` (T12.2), all schemas / trees / value lists of the reported length (placeholder identities distinct):
+  no IndexError, no value left, and the (placeholder, value) pairs made by the walk are a permutation of pairing the
+  i-th placeholder *in textual order* with the i-th value — none unbound, none bound twice; nothing else is replaced.
+* `C12_visits` (coverage): on an `okTree` the walk of `fill` visits exactly `expected` (every required node), so every
+  placeholder in a required position is found; needs `phi12`.  Placeholders in positions the walker does not reach are
+  the open part (C13's coverage is complete on the probed schema; its four *order* deviations no longer matter here).
+* `C12_execute`, `C12_mismatch` (T12.4).  `C12_partial` bundles the above for the probed schema.
+* regression theorems for repaired defects: `C12_update_textual` (c3aa76c: `UPDATE … SET a=?, b=? WHERE c=?` binds
+  in textual order although WHERE is visited first), `C12_case_operand`, `C12_from_arg`, `C12_second_execute`,
+  `C12_info_after_execute`, `C12_keeps_alias`.
+Planning of the filled tree (`plan_query`) is outside this model; the check compares plans on the real code.
 -/
 namespace MindsVerif.Props.C12
 open MindsVerif.Walk MindsVerif.Params MindsVerif.Gen
@@ -35,87 +32,170 @@ def σ : Schema := Schema.schema
 def P : Nat := Schema.classNames.findIdx (· == "Parameter")
 def C : Nat := Schema.classNames.findIdx (· == "Constant")
 
-/-- the identities of the placeholders in textual order -/
-def textualParams (σ : Schema) (P : Nat) (q : Node) : List (Option Nat) :=
-  ((walk σ cbLog q ()).log.filter (isP P)).map Visit.tag
+/-- the (placeholder, value) pairs made by a walk -/
+def bindings (P : Nat) (o : Out Unit) : List (Option Nat × Option Nat) :=
+  (o.log.filter (isP P)).map (fun v => (v.tag, v.ans.map Node.tag))
 
-/-- full statement (for a schema): count, textual binding, exhaustion, count check -/
+/-- all found placeholders are rendered -/
+def rendered (σ : Schema) (P : Nat) (q : Node) : Bool :=
+  (walk σ (cbFind P) q []).st.all (fun p => (textOrder σ q).contains p.tag)
+
+/-- full statement (for a schema) -/
 def C12_full (σ : Schema) (P C : Nat) : Prop :=
   ∀ (q : Node) (vs : List Nat),
-    -- visiting order is textual order
-    (walk σ (cbFill P C) q ⟨vs, false⟩).log.map Visit.key = expected σ q false false
+    -- every placeholder of the statement is reached: the walk visits the textual preorder of the required nodes
+    (walk σ (cbFind P) q []).log.map Visit.key = expected σ q false false
+    -- the reported placeholders are in the order they are written
+    ∧ (getParams σ P q).Pairwise (fun a b => rank (textOrder σ q) a.tag ≤ rank (textOrder σ q) b.tag)
+    -- binding: i-th written placeholder ↦ i-th value, none left, none twice
     ∧ (vs.length = (getParams σ P q).length →
-        (walk σ (cbFill P C) q ⟨vs, false⟩).st = ⟨[], false⟩
-        ∧ ((walk σ (cbFill P C) q ⟨vs, false⟩).log.filter (isP P)).map (fun v => v.ans.map Node.tag) = vs.map some)
+        (fillParams σ P C q vs).failed = false ∧ (fillParams σ P C q vs).left = 0
+        ∧ (bindings P (fillParams σ P C q vs).out).Perm
+            (((getParams σ P q).map (fun m => some m.tag)).zip (vs.map some)))
     ∧ (vs.length ≠ (getParams σ P q).length →
         (execute σ P C (some vs) (prepare σ P q .init)).2 = .error .planning)
+
+/-- the placeholders reported by `prepare` are exactly those the walk visits (in some order) -/
+theorem C12_found_perm (σ : Schema) (P : Nat) (q : Node) :
+    ((getParams σ P q).map some).Perm (((walk σ (cbFind P) q []).log.filter (isP P)).map Visit.node) := by
+  have h := find_trace P _ _ _ (trace_all σ (cbFind P) q false false 0 [])
+  simp only [List.map_nil, List.nil_append] at h
+  have hp := (sortByText_perm σ q (walk σ (cbFind P) q []).st).map some
+  exact hp.trans (.of_eq h)
 
 /-- T12.1 -/
 theorem C12_count (σ : Schema) (P : Nat) (q : Node) :
     (getParams σ P q).length = nP P (walk σ (cbFind P) q []).log := by
-  have h := find_trace P _ _ _ (trace_all σ (cbFind P) q false false 0 [])
-  have := congrArg List.length h
-  simpa [getParams, walk, nP] using this
+  have := (C12_found_perm σ P q).length_eq
+  simpa [nP] using this
 
-theorem nP_find_fill (σ : Schema) (P C : Nat) (q : Node) (s : FillSt) :
-    nP P (walk σ (cbFind P) q []).log = nP P (walk σ (cbFill P C) q s).log := by
-  rw [nP_what, nP_what]
-  have := (same_visits σ (cbFind P) (cbFill P C) (agree_find_fill P C) q false false 0 [] s).1
-  simp only [walk]
-  rw [this]
+/-- T12.3: the reported placeholders are in the order they are written (no hypothesis on the walker's order) -/
+theorem C12_textual (σ : Schema) (P : Nat) (q : Node) (h : rendered σ P q = true) :
+    (getParams σ P q).Pairwise (fun a b => rank (textOrder σ q) a.tag ≤ rank (textOrder σ q) b.tag) :=
+  sortByText_sorted σ q _ h
+
+theorem mem_of_some_mem {α : Type} {l : List α} {a : α} (h : some a ∈ l.map some) : a ∈ l := by
+  obtain ⟨b, hb, e⟩ := List.mem_map.mp h
+  injection e with e; exact e ▸ hb
 
 /-- T12.2 -/
 theorem C12_fill (σ : Schema) (P C : Nat) (q : Node) (vs : List Nat)
-    (h : vs.length = (getParams σ P q).length) :
-    let o := walk σ (cbFill P C) q ⟨vs, false⟩
-    o.st = ⟨[], false⟩
-    ∧ (o.log.filter (isP P)).map (fun v => v.ans.map Node.tag) = vs.map some
-    ∧ (o.log.filter (isP P)).map Visit.node = (getParams σ P q).map some
-    ∧ (∀ v ∈ o.log, isP P v = false → v.ans = none)
-    ∧ (∀ v ∈ o.log, isP P v = true → ∃ m x, v.node = some m ∧ v.ans = some (.mk C m.slot x m.kids)) := by
-  intro o
-  have hn : nP P o.log = vs.length := by
-    rw [h, C12_count, nP_find_fill σ P C q ⟨vs, false⟩]
-  have ht := fill_trace P C _ _ _ (trace_all σ (cbFill P C) q false false 0 ⟨vs, false⟩)
-    (by show nP P o.log ≤ vs.length; omega)
-  obtain ⟨t1, t2, t3, t4, t5⟩ := ht
-  have hn' : nP P (tr σ (cbFill P C) q false false 0 ⟨vs, false⟩).log = vs.length := hn
-  refine ⟨?_, ?_, ?_, t4, t5⟩
-  · have e1 : o.st.vals = [] := by
-      show (tr σ (cbFill P C) q false false 0 ⟨vs, false⟩).st.vals = []
-      rw [t1, hn']; simp
-    have e2 : o.st.failed = false := t2
-    cases ho : o.st with
-    | mk vals failed => rw [ho] at e1 e2; simp at e1 e2; rw [e1, e2]
-  · show ((tr σ (cbFill P C) q false false 0 ⟨vs, false⟩).log.filter (isP P)).map _ = _
-    rw [t3, hn']; simp
-  · have hf := find_trace P _ _ _ (trace_all σ (cbFind P) q false false 0 [])
-    have hs := (same_visits σ (cbFind P) (cbFill P C) (agree_find_fill P C) q false false 0 [] ⟨vs, false⟩).1
-    show ((tr σ (cbFill P C) q false false 0 ⟨vs, false⟩).log.filter (isP P)).map Visit.node = _
-    rw [filter_isP_what, ← hs, ← filter_isP_what]
-    simpa [getParams, walk] using hf.symm
+    (h : vs.length = (getParams σ P q).length) (hnd : ((getParams σ P q).map Node.tag).Nodup) :
+    (fillParams σ P C q vs).failed = false ∧ (fillParams σ P C q vs).left = 0
+    ∧ (bindings P (fillParams σ P C q vs).out).Perm
+        (((getParams σ P q).map (fun m => some m.tag)).zip (vs.map some))
+    ∧ (∀ v ∈ (fillParams σ P C q vs).out.log, isP P v = false → v.ans = none) := by
+  have hlt : ¬ vs.length < (getParams σ P q).length := by omega
+  have hf : fillParams σ P C q vs = ⟨walk σ (cbFillMap P C (((getParams σ P q).map Node.tag).zip vs)) q (), false,
+      vs.length - (getParams σ P q).length⟩ := by
+    simp only [fillParams, if_neg hlt]
+  rw [hf]
+  refine ⟨rfl, by simp only; omega, ?_⟩
+  simp only
+  generalize hkeys : (getParams σ P q).map Node.tag = keys at hnd
+  let vals := keys.zip vs
+  have htr := trace_unit_mem _ _ _ _ (trace_all σ (cbFillMap P C vals) q false false 0 ())
+  -- the placeholders visited by the fill walk are those visited by the find walk
+  have hs := (same_visits σ (cbFind P) (cbFillMap P C vals) (agree_find_fill P C vals) q false false 0 [] ()).1
+  have hnodes : ((walk σ (cbFillMap P C vals) q ()).log.filter (isP P)).map Visit.node
+      = ((walk σ (cbFind P) q []).log.filter (isP P)).map Visit.node := by
+    simp only [walk]; rw [filter_isP_what, ← hs, ← filter_isP_what]
+  have hperm := C12_found_perm σ P q
+  rw [← hnodes] at hperm
+  have hlen : keys.length ≤ vs.length := by rw [← hkeys]; simp [h]
+  refine ⟨?_, ?_⟩
+  · -- bindings, visit by visit
+    let g : Option Node → Option Nat × Option Nat := fun n =>
+      match n with | some m => (some m.tag, vals.lookup m.tag) | none => (none, none)
+    have e1 : bindings P (walk σ (cbFillMap P C vals) q ())
+        = (((walk σ (cbFillMap P C vals) q ()).log.filter (isP P)).map Visit.node).map g := by
+      simp only [bindings, List.map_map]
+      apply List.map_congr_left
+      intro v hv
+      have hvl := (List.mem_filter.mp hv).1
+      have hvp := (List.mem_filter.mp hv).2
+      have hans := htr v hvl
+      cases hn : v.node with
+      | none => simp [isP, hn] at hvp
+      | some m =>
+        have hm : m.cls = P := by simpa [isP, hn] using hvp
+        have hmem : m ∈ getParams σ P q := by
+          apply mem_of_some_mem
+          exact hperm.mem_iff.mpr (List.mem_map.mpr ⟨v, hv, hn⟩)
+        have hk : m.tag ∈ keys := by rw [← hkeys]; exact List.mem_map.mpr ⟨m, hmem, rfl⟩
+        have hlk : ∃ x, vals.lookup m.tag = some x := by
+          have hmz : m.tag ∈ (keys.zip vs).map (·.1) := by
+            rw [List.map_fst_zip (by omega)]; exact hk
+          obtain ⟨kv, hkv, hkv1⟩ := List.mem_map.mp hmz
+          cases hl : vals.lookup m.tag with
+          | some x => exact ⟨x, rfl⟩
+          | none =>
+            exfalso
+            have := List.lookup_eq_none_iff.mp hl kv hkv
+            simp [hkv1] at this
+        obtain ⟨x, hx⟩ := hlk
+        rw [hn] at hans
+        simp only [cbFillMap, hm, if_true, hx] at hans
+        have hvt : v.tag = some m.tag := by simp [Visit.tag, hn]
+        have hva : v.ans.map Node.tag = some x := by rw [← hans]; rfl
+        simp only [Function.comp, g, hn, hvt, hva, hx]
+    rw [e1]
+    refine (hperm.symm.map g).trans (.of_eq ?_)
+    simp only [List.map_map]
+    have e2 : (getParams σ P q).map (g ∘ some) = keys.map (fun k => (some k, vals.lookup k)) := by
+      rw [← hkeys, List.map_map]; rfl
+    rw [e2]
+    have lz := lookup_zip keys vs hnd hlen
+    have : keys.map (fun k => (some k, vals.lookup k))
+        = (keys.map (fun k => (k, (keys.zip vs).lookup k))).map (fun kv => (some kv.1, kv.2)) := by
+      simp [List.map_map, Function.comp_def, vals]
+    rw [this, lz, List.map_map]
+    have e3 : (getParams σ P q).map (fun m => some m.tag) = keys.map some := by rw [← hkeys, List.map_map]; rfl
+    rw [e3, List.zip_map]
+    rfl
+  · intro v hv hp
+    have hans := htr v hv
+    rw [← hans]
+    cases hn : v.node with
+    | none => simp [cbFillMap]
+    | some m =>
+      have hm : ¬ m.cls = P := by simpa [isP, hn] using hp
+      simp [cbFillMap, hm]
 
 /-- Φ12: the walker's branch for `Parameter` traverses nothing -/
 theorem phi12 : (σ.row P).walk = [] := by decide +kernel
 
-theorem leafOnly_fill (σ : Schema) (P C : Nat) (hP : (σ.row P).walk = []) : LeafOnly σ (cbFill P C) := by
+theorem leafOnly_fill (σ : Schema) (P C : Nat) (values : List (Nat × Nat)) (hP : (σ.row P).walk = []) :
+    LeafOnly σ (cbFillMap P C values) := by
   intro st n a b pq x hx
   cases n with
-  | none => simp [cbFill] at hx
+  | none => simp [cbFillMap] at hx
   | some m =>
     by_cases hm : m.cls = P
     · exact ⟨m, rfl, by rw [hm]; exact hP⟩
-    · simp [cbFill, hm] at hx
+    · simp [cbFillMap, hm] at hx
 
-/-- T12.3: visiting order (= binding order) is the textual order on trees avoiding the excepted configurations -/
-theorem C12_textual (σ : Schema) (P C : Nat) (hP : (σ.row P).walk = []) (q : Node) (hq : okTree σ q = true)
-    (s : FillSt) : (walk σ (cbFill P C) q s).log.map Visit.key = expected σ q false false :=
-  goodlog_all σ (cbFill P C) (leafOnly_fill σ P C hP) q hq false false 0 s
+theorem leafOnly_find (σ : Schema) (P : Nat) (hP : (σ.row P).walk = []) : LeafOnly σ (cbFind P) := by
+  intro st n a b pq x hx
+  cases n with
+  | none => simp [cbFind] at hx
+  | some m =>
+    by_cases hm : m.cls = P
+    · exact ⟨m, rfl, by rw [hm]; exact hP⟩
+    · simp [cbFind, hm] at hx
+
+/-- coverage: on a tree avoiding the excepted configurations both walks visit exactly the required nodes -/
+theorem C12_visits (σ : Schema) (P C : Nat) (hP : (σ.row P).walk = []) (q : Node) (hq : okTree σ q = true)
+    (values : List (Nat × Nat)) :
+    (walk σ (cbFind P) q []).log.map Visit.key = expected σ q false false
+    ∧ (walk σ (cbFillMap P C values) q ()).log.map Visit.key = expected σ q false false :=
+  ⟨goodlog_all σ (cbFind P) (leafOnly_find σ P hP) q hq false false 0 [],
+   goodlog_all σ (cbFillMap P C values) (leafOnly_fill σ P C values hP) q hq false false 0 ()⟩
 
 /-- T12.4: the count check -/
 theorem C12_execute (σ : Schema) (P C : Nat) (q : Node) (vs : List Nat) (s0 : PState)
     (h : vs.length = (getParams σ P q).length) :
-    (execute σ P C (some vs) (prepare σ P q s0)).2 = .planned (fillParams σ P C q vs).1 := by
+    (execute σ P C (some vs) (prepare σ P q s0)).2 = .planned (fillParams σ P C q vs).out.self := by
   simp [execute, prepare, h]
 
 theorem C12_mismatch (σ : Schema) (P C : Nat) (q : Node) (vs : List Nat) (s0 : PState)
@@ -123,34 +203,41 @@ theorem C12_mismatch (σ : Schema) (P C : Nat) (q : Node) (vs : List Nat) (s0 : 
     (execute σ P C (some vs) (prepare σ P q s0)).2 = .error .planning := by
   simp [execute, prepare, h]
 
-/-- `C12_partial`: everything the full statement says, on the trees that avoid the excepted configurations -/
-theorem C12_partial (q : Node) (hq : okTree σ q = true) (vs : List Nat) :
-    (walk σ (cbFill P C) q ⟨vs, false⟩).log.map Visit.key = expected σ q false false
-    ∧ (vs.length = (getParams σ P q).length →
-        (walk σ (cbFill P C) q ⟨vs, false⟩).st = ⟨[], false⟩
-        ∧ ((walk σ (cbFill P C) q ⟨vs, false⟩).log.filter (isP P)).map (fun v => v.ans.map Node.tag) = vs.map some)
+/-- `C12_partial`: the full statement for the probed schema, the first clause (every placeholder is reached) on the
+trees that avoid the excepted configurations, the order clause when the placeholders are rendered, the binding
+clause for distinct identities -/
+theorem C12_partial (q : Node) (vs : List Nat) :
+    (okTree σ q = true → (walk σ (cbFind P) q []).log.map Visit.key = expected σ q false false)
+    ∧ (rendered σ P q = true →
+        (getParams σ P q).Pairwise (fun a b => rank (textOrder σ q) a.tag ≤ rank (textOrder σ q) b.tag))
+    ∧ (vs.length = (getParams σ P q).length → ((getParams σ P q).map Node.tag).Nodup →
+        (fillParams σ P C q vs).failed = false ∧ (fillParams σ P C q vs).left = 0
+        ∧ (bindings P (fillParams σ P C q vs).out).Perm
+            (((getParams σ P q).map (fun m => some m.tag)).zip (vs.map some)))
     ∧ (vs.length ≠ (getParams σ P q).length →
         (execute σ P C (some vs) (prepare σ P q .init)).2 = .error .planning) :=
-  ⟨C12_textual σ P C phi12 q hq _,
-   fun h => ⟨(C12_fill σ P C q vs h).1, (C12_fill σ P C q vs h).2.1⟩,
+  ⟨fun hq => (C12_visits σ P C phi12 q hq []).1,
+   C12_textual σ P q,
+   fun h hnd => ⟨(C12_fill σ P C q vs h hnd).1, (C12_fill σ P C q vs h hnd).2.1, (C12_fill σ P C q vs h hnd).2.2.1⟩,
    fun h => C12_mismatch σ P C q vs .init h⟩
 
-/-! ### witnesses -/
+/-! ### regression examples -/
 
 def cid (n : String) : Nat := Schema.classNames.findIdx (· == n)
 def sid (c s : String) : Nat := (Schema.slotNames.getD (cid c) []).findIdx (· == s)
 def param (c s : String) (tag : Nat) : Node := .mk P (sid c s) tag []
 def ident (c s : String) (tag : Nat) : Node := .mk (cid "Identifier") (sid c s) tag []
 
-/-- `UPDATE t SET a = ?, b = ? WHERE c = ?`: the first value is bound to the WHERE placeholder (tag 4) -/
+/-- (regression, fixed by c3aa76c) `UPDATE t SET a = ?, b = ? WHERE c = ?`: the walker visits the WHERE placeholder
+(4) first, but the placeholders are reported and bound in the order they are written -/
 def wUpdate : Node := .mk (cid "Update") 0 0
   [ident "Update" "table" 1, param "Update" "update_columns" 2, param "Update" "update_columns" 3,
    param "Update" "where" 4]
-theorem C12_witness_update :
-    ((walk σ (cbFill P C) wUpdate ⟨[10, 20, 30], false⟩).log.filter (isP P)).map
-        (fun v => (v.tag, v.ans.map Node.tag))
-      = [(some 4, some 10), (some 2, some 20), (some 3, some 30)]
-    ∧ ((expected σ wUpdate false false).map (·.1)) = [some 0, some 1, some 2, some 3, some 4] := by
+theorem C12_update_textual :
+    ((walk σ (cbFind P) wUpdate []).log.filter (isP P)).map Visit.tag = [some 4, some 2, some 3]
+    ∧ (getParams σ P wUpdate).map Node.tag = [2, 3, 4]
+    ∧ bindings P (fillParams σ P C wUpdate [10, 20, 30]).out = [(some 4, some 30), (some 2, some 10), (some 3, some 20)]
+    ∧ rendered σ P wUpdate = true := by
   decide +kernel
 
 /-- (regression, fixed by a58885a) `SELECT CASE ? WHEN ? THEN ? END`: all 3 placeholders are found, operand first -/
@@ -181,20 +268,25 @@ the alias slot has the same id in `Parameter` and `Constant` -/
 def wAlias : Node := .mk (cid "Select") 0 0
   [.mk P (sid "Select" "targets") 1 [ident "Parameter" "alias" 2]]
 theorem C12_keeps_alias :
-    (fillParams σ P C wAlias [10]).1.flat
+    (fillParams σ P C wAlias [10]).out.self.flat
       = (Node.mk (cid "Select") 0 0 [.mk C (sid "Select" "targets") 10 [ident "Constant" "alias" 2]]).flat
     ∧ sid "Parameter" "alias" = sid "Constant" "alias" := by decide +kernel
 
 /-! ### non-vacuity -/
 
-/-- `SELECT ?, f(?) WHERE a = ?` -/
+/-- `SELECT ?, f(?) FROM (SELECT ? …) WHERE a = ?`: a subquery in FROM is visited first, reported third -/
 def okQ : Node := .mk (cid "Select") 0 0
   [param "Select" "targets" 1,
    .mk (cid "Function") (sid "Select" "targets") 2 [param "Function" "args" 3],
+   .mk (cid "Select") (sid "Select" "from_table") 7 [param "Select" "targets" 8],
    .mk (cid "BinaryOperation") (sid "Select" "where") 4 [ident "BinaryOperation" "args" 5, param "BinaryOperation" "args" 6]]
-example : okTree σ okQ = true := by decide +kernel
-example : (getParams σ P okQ).length = 3 := by decide +kernel
-example : ((walk σ (cbFill P C) okQ ⟨[10, 20, 30], false⟩).log.filter (isP P)).map (fun v => (v.tag, v.ans.map Node.tag))
-    = [(some 1, some 10), (some 3, some 20), (some 6, some 30)] := by decide +kernel
+example : rendered σ P okQ = true ∧ (getParams σ P okQ).map Node.tag = [1, 3, 8, 6]
+    ∧ ((getParams σ P okQ).map Node.tag).Nodup := by decide +kernel
+example : bindings P (fillParams σ P C okQ [10, 20, 30, 40]).out
+    = [(some 8, some 30), (some 1, some 10), (some 3, some 20), (some 6, some 40)] := by decide +kernel
+/-- a tree satisfying the coverage hypothesis -/
+example : okTree σ (.mk (cid "Select") 0 0 [param "Select" "targets" 1,
+    .mk (cid "BinaryOperation") (sid "Select" "where") 4 [ident "BinaryOperation" "args" 5, param "BinaryOperation" "args" 6]]) = true := by
+  decide +kernel
 
 end MindsVerif.Props.C12
